@@ -172,7 +172,7 @@ def strip_end(e):
 # ------------------------------------------------------------------------------------ generators
 def gen_outcome(rng, p_err=0.3):
     if rng.random() < p_err:
-        return {"err": {"cls": rng.choice(["ValueError", "KeyError", "Boom", "Boom", "InvocationError"]), "msg": rng.choice(["boom", "bad", ""])}}
+        return {"err": {"cls": rng.choice(["ValueError", "KeyError", "Boom", "Boom", "InvocationError"]), "msg": rng.choice(["boom", "bad", "", "b\u00e4d \u65e5\u672c (x.y)"])}}
     return {"ok": rng.choice(TOKENS)}
 
 
@@ -357,7 +357,8 @@ def run_execution(script, seed, crash_p=0.25, fault_p=0.1, max_inv=40, limits=No
                "hung": res["hung"], "limit": res["limit"], "leftover_threads": res["leftover_threads"],
                "out_raw": res.get("out"), "exec_result": backend.exec_result,
                "enabled_after": [(kind, backend.ops[i].pos()) for kind, i in backend.enabled_events()],
-               "calls": [(t, [(u["name"], u["action"]) for u in us], o) for t, us, o in backend.calls]}
+               "calls": [(t, [(u["name"], u["action"]) for u in us], o) for t, us, o in backend.calls],
+               "calls_sync": [[bool(u.get("sync")) for u in us] for t, us, o in backend.calls]}
         invs.append(inv)
         rounds.append({"r": "invoke", "budget": plan.get("crash_tick", BIG) if plan.get("crash_tick") is not None else BIG,
                        "failAt": plan.get("fail_sync_call"), "keep": res["keep"],
